@@ -65,8 +65,28 @@ def scat_catalogue(quick=True):
     return out
 
 
-def build(S, kind, p, nb=2, c=3, requires_grad=False, contig=True):
-    """returns (callable, args tuple, inputs: list of (Base, DataT), label)"""
+MODULE_KINDS = ('dwt1d-fwd', 'dwt1d-inv', 'dwt1d-inv-none', 'dwt2d-fwd', 'dwt2d-inv', 'dwt2d-inv-none', 'swt',
+                'dtcwt-fwd', 'dtcwt-inv', 'scat1', 'scat2')
+
+
+class _Reuse:
+    """Session facade whose construct() hands back an existing module instance (same-instance call histories)"""
+
+    def __init__(self, S, module):
+        self._S, self._m = S, module
+
+    def construct(self, *a, **k):
+        return self._m
+
+    def __getattr__(self, name):
+        return getattr(self._S, name)
+
+
+def build(S, kind, p, nb=2, c=3, requires_grad=False, contig=True, module=None):
+    """returns (callable, args tuple, inputs: list of (Base, DataT), label); with `module` the call goes to that
+    already constructed instance (only for MODULE_KINDS)"""
+    if module is not None:
+        S = _Reuse(S, module)
     def mk(name, spatial, extra=()):
         b, t = base_tensor(name, nb, c, list(spatial), extra_e=tuple(extra), requires_grad=requires_grad)
         t.contig = contig
